@@ -64,7 +64,7 @@ Proof. reflexivity. Qed.
 
 Lemma p_unary_S f ts : p_unary (S f) ts =
   match unary_tok ts with
-  | Some (u, r) => bind (p_unary f r) (fun ar => let (a, r') := ar in Ok (Un u a, r'))
+  | Some (u, r) => bind (p_unary f r) (fun ar => let (a, r') := ar in Ok (u a, r'))
   | None =>
       match ts with
       | TInc :: r =>
@@ -101,7 +101,7 @@ Lemma p_primary_S f ts : p_primary (S f) ts =
   match ts with
   | TNum n :: r => Ok (Num n, r)
   | TId x :: TOp LtO :: r1 =>
-      if generic_scan 1 r1 then
+      if generic_scan_b scan_bound 1 r1 then
         match targs_list (S (List.length r1)) 0 r1 with
         | Some (n, TLP :: r2) =>
             bind (p_args f r2) (fun ar =>
@@ -318,7 +318,7 @@ Proof.
       destruct t2; cbn [good List.length]; try lia.
       * (* TOp *)
         destruct o; cbn [good List.length]; try lia.
-        destruct (generic_scan 1 r1); cbn [good List.length]; try lia.
+        destruct (generic_scan_b scan_bound 1 r1); cbn [good List.length]; try lia.
         destruct (targs_list (S (List.length r1)) 0 r1) as [[n r2]|] eqn:Et; cbn [good]; auto.
         apply targs_list_le in Et.
         destruct r2 as [|t3 r2]; cbn [good List.length] in *; try lia.
@@ -452,7 +452,7 @@ Proof.
       + destruct r0 as [|t2 r1]; [intros [= <- <-]; cbn [List.length]; lia|].
         destruct t2; try (intros [= <- <-]; cbn [List.length]; lia).
         * destruct o; try (intros [= <- <-]; cbn [List.length]; lia).
-          destruct (generic_scan 1 r1); [|intros [= <- <-]; cbn [List.length]; lia].
+          destruct (generic_scan_b scan_bound 1 r1); [|intros [= <- <-]; cbn [List.length]; lia].
           destruct (targs_list (S (List.length r1)) 0 r1) as [[n r2]|] eqn:Et; try discriminate.
           apply targs_list_le in Et.
           destruct r2 as [|t3 r2]; [intros [= <- <-]; cbn [List.length] in *; lia|].
